@@ -66,6 +66,17 @@ CHECKS["C08"] = dict(
     note="Trusted: X25519/HMAC/HKDF primitives. Removing only the identifier comparison or only the auth-tag check does not "
          "violate the statement (keys stay bound to the selected peer via x.B) and is therefore not flagged.")
 
+CHECKS["C09"] = dict(
+    category="fault_enumeration", design_ref="DESIGN.md 2/C09",
+    technique="fault enumeration over message loss/duplication/delay on a simulated network under a virtual clock; oracle = no orphan routing entries or open sockets at a settings-derived deadline",
+    text="For every scenario (hops x phase x tearing-down party, incl. the originator vanishing) every single drop / duplicate "
+         "/ 30 s delay among the first 24 flights is enumerated (thorough: all scenarios, all fault pairs on 2-hop scenarios), "
+         "Hypothesis adds larger fault sets; virtual time then runs to the deadline and every node's tables and outside "
+         "sockets are compared with what is reachable from working circuits; an unrelated busy circuit must survive. "
+         "Join limit and relay_early budget are checked with drawn limits.",
+    note="'Eventually' is judged at one generous deadline computed from the settings. Nodes do not crash; only datagrams "
+         "are lost, duplicated or delayed.")
+
 PENDING = {}
 
 def main():
